@@ -345,4 +345,108 @@ theorem escape_unescape_runes (rs : List Nat) (h : ∀ r ∈ rs, BMP r) :
         rw [unescape_plain c hne, ih' k hk]
 
 
+theorem pct_eq (b : Nat) (hb : b < 256) : pct b = Spec.pctOctet b := by
+  have h1 := hexUpper_facts (b / 16) (by omega)
+  have h2 := hexUpper_facts (b % 16) (by omega)
+  simp [pct, Spec.pctOctet, h1.2.2.2.2.1, h2.2.2.2.2.1]
+
+theorem queryEscape_high (bs : List Nat) (h : ∀ b ∈ bs, 128 ≤ b) : queryEscape bs = bs.flatMap pct := by
+  induction bs with
+  | nil => rfl
+  | cons b t ih =>
+    have hb := h b (by simp)
+    have : urlShouldEscape b = true := by simp [urlShouldEscape, isAlnum]; omega
+    simp only [queryEscape, List.flatMap_cons] at ih ⊢
+    rw [ih (fun x hx => h x (by simp [hx]))]
+    simp [this]; omega
+
+theorem flatMap_congr' {f g : Nat → List Nat} : ∀ (l : List Nat), (∀ b ∈ l, f b = g b) → l.flatMap f = l.flatMap g := by
+  intro l
+  induction l with
+  | nil => intro _; rfl
+  | cons a t ih =>
+    intro h
+    simp only [List.flatMap_cons]
+    rw [h a (by simp), ih (fun b hb => h b (by simp [hb]))]
+
+theorem utf8Octets_high (r : Nat) (hr : Scalar r) (h : 128 ≤ r) : ∀ b ∈ Spec.utf8Octets r, 128 ≤ b ∧ b < 256 := by
+  obtain ⟨h1, h2⟩ := hr
+  unfold Spec.utf8Octets
+  have c1 : ¬ r < 0x80 := by omega
+  by_cases c2 : r < 0x800
+  · simp only [c1, c2, if_true, if_false]; intro b hb; simp at hb; omega
+  · by_cases c3 : r < 0x10000
+    · simp only [c1, c2, c3, if_true, if_false]; intro b hb; simp at hb; omega
+    · simp only [c1, c2, c3, if_true, if_false]; intro b hb; simp at hb; omega
+
+
+theorem qu_plain (c : Nat) (h37 : c ≠ 37) (h43 : c ≠ 43) (rest : List Nat) :
+    queryUnescape (c :: rest) = (queryUnescape rest).map (c :: ·) := by
+  rw [queryUnescape.eq_4]
+  · intro a b r h _; exact h37 h
+  · intro h; exact h37 h
+  · intro h; exact h43 h
+
+theorem qu_pct (b : Nat) (hb : b < 256) (rest : List Nat) :
+    queryUnescape (pct b ++ rest) = (queryUnescape rest).map (b :: ·) := by
+  have h1 := hexUpper_facts (b / 16) (by omega)
+  have h2 := hexUpper_facts (b % 16) (by omega)
+  simp only [pct, List.cons_append, List.nil_append]
+  rw [queryUnescape.eq_1]
+  simp only [h1.2.2.1, h2.2.2.1, h1.2.2.2.1, h2.2.2.2.1, and_self, if_true]
+  have : b / 16 * 16 + b % 16 = b := by omega
+  rw [this]
+
+theorem hexUpper_ne43 : ∀ n, n < 16 → hexUpper n ≠ 43 := by decide
+
+theorem plusHack_pct (b : Nat) (hb : b < 256) : plusHack (pct b) = pct b := by
+  have h1 := hexUpper_ne43 (b / 16) (by omega)
+  have h2 := hexUpper_ne43 (b % 16) (by omega)
+  simp [plusHack, pct, h1, h2]
+
+theorem plusHack_append (a b : List Nat) : plusHack (a ++ b) = plusHack a ++ plusHack b := by
+  simp [plusHack, List.flatMap_append]
+
+theorem plusHack_pcts (bs : List Nat) (h : ∀ b ∈ bs, b < 256) : plusHack (bs.flatMap pct) = bs.flatMap pct := by
+  induction bs with
+  | nil => rfl
+  | cons b t ih =>
+    simp only [List.flatMap_cons, plusHack_append]
+    rw [plusHack_pct b (h b (by simp)), ih (fun x hx => h x (by simp [hx]))]
+
+theorem qu_pcts (bs : List Nat) (h : ∀ b ∈ bs, b < 256) (rest : List Nat) :
+    queryUnescape (bs.flatMap pct ++ rest) = (queryUnescape rest).map (bs ++ ·) := by
+  induction bs with
+  | nil => simp
+  | cons b t ih =>
+    simp only [List.flatMap_cons, List.append_assoc]
+    rw [qu_pct b (h b (by simp)), ih (fun x hx => h x (by simp [hx]))]
+    cases queryUnescape rest <;> simp
+
+set_option maxRecDepth 4000 in
+theorem component_ascii : ∀ r, r < 128 →
+    (replaceRune keepComponent r = [r] ∧ r ≠ 37 ∧ r ≠ 43) ∨ replaceRune keepComponent r = pct r := by
+  decide
+
+theorem component_rune (r : Nat) (hr : Scalar r) (rest : List Nat) :
+    queryUnescape (plusHack (replaceRune keepComponent r) ++ rest) = (queryUnescape rest).map (encodeRune r ++ ·) := by
+  by_cases hlt : r < 128
+  · have henc : encodeRune r = [r] := by rw [encodeRune_eq r hr]; simp [Spec.utf8Octets, hlt]
+    rcases component_ascii r hlt with ⟨h1, h37, h43⟩ | h1
+    · rw [h1, henc]
+      have : plusHack [r] = [r] := by simp [plusHack, h43]
+      rw [this]; simp only [List.cons_append, List.nil_append]
+      exact qu_plain r h37 h43 rest
+    · rw [h1, henc, plusHack_pct r (by omega), qu_pct r (by omega)]
+      simp
+  · have hge : 128 ≤ r := by omega
+    have hb := utf8Octets_high r hr hge
+    have hk2 : keepComponent.contains r = false := by simp [keepComponent]; omega
+    have h32 : r ≠ 32 := by omega
+    have hq := queryEscape_high (Spec.utf8Octets r) (fun b hb' => (hb b hb').1)
+    have hrep : replaceRune keepComponent r = (Spec.utf8Octets r).flatMap pct := by
+      simp only [replaceRune, hk2, Bool.false_eq_true, if_false, h32, encodeRune_eq r hr, hq]
+    rw [hrep, plusHack_pcts _ (fun b hb' => (hb b hb').2), qu_pcts _ (fun b hb' => (hb b hb').2), encodeRune_eq r hr]
+
+
 end OttoVerif.C13.Thm
